@@ -399,8 +399,8 @@ FILES = ["d0/f0", "d0/f1", "d1/f0", "f2", "d0/d2/f3"]
 
 def gen_prog(rng, nops):
     """programs over a small name space so that ops hit existing / missing / wrong-type targets"""
-    prog = ["mkdir d0 755", "mkdir d1 700"]
-    opened = set()
+    prog = ["mkdir d0 755", "mkdir d1 700", "open 0 d0/f0 rwc 644", "open 1 f2 rwc 600"]
+    opened = {0, 1}
     P = lambda: rng.choice(PATHS)
     F = lambda: rng.choice(FILES)
     S = lambda: rng.choice(sorted(opened)) if opened and rng.below(8) else rng.below(6)
@@ -641,11 +641,13 @@ def run(ctx):
         return
     rng = ctx.rng
     ok = True
+    ctx.log("lean + harnesses ready")
     if uexe:
         ok = run_unit(ctx, uexe, load_corpus()[0] + CORPUS_UNIT, "corpus")
         if ok:
-            ok = run_unit(ctx, uexe, unit_batches(rng, ctx.scale(2400, 60000)), "generated")
+            ok = run_unit(ctx, uexe, unit_batches(rng, ctx.scale(12000, 240000)), "generated")
         ctx.sample({"fsbuf": gen_write_case(SplitMix(ctx.seed), 4)})
+    ctx.log("unit correspondence done")
     if rexe:
         t0 = time.time()
         budget = ctx.scale(28, 600)
